@@ -153,6 +153,31 @@ def events(rng, homs):
             for name in F6:
                 yield "se3_force", dict(f, a=a), h["den"], (lambda T=T, A=A, name=name: (SE3(T) * C[name](A)).A), "SE3*" + name
 
+    # motions far from the identity, generated by twists of large magnitude: translations longer than one turn's worth
+    # of radians (prismatic twists with |v| > 2 pi) and screws wound more than one full turn (|w| > 2 pi, non-zero
+    # pitch) - the motion of a twist is NOT periodic in its magnitude
+    import math
+    import ctorlib
+    far = []
+    for t in ((8, 0, 0), (3, -7, 25), (0, 0, -40)):
+        far.append(({"q": [1, 0, 0, 0], "t": list(t), "d": 1}, np.r_[np.array(t, dtype=float), 0, 0, 0], "prismatic"))
+    for q, u, theta, p_, d_ in (([1, 1, 0, 0], (1, 0, 0), 2 * math.pi + math.pi / 2, (0, 1, 2), 3),
+                                ([0, 0, 0, 1], (0, 0, 1), -3 * math.pi, (1, 2, 0), -2),
+                                ([1, 0, -1, 0], (0, 1, 0), -(2 * math.pi + math.pi / 2), (2, 0, -1), 5)):
+        u_, pp = np.array(u, dtype=float), np.array(p_, dtype=float)
+        w = theta * u_
+        S = np.r_[-np.cross(w, pp) + d_ * u_, w]
+        R = ctorlib._axis_rot(list(u), theta)
+        t = (np.eye(3) - R) @ pp + d_ * u_
+        far.append(({"q": q, "t": [int(round(x)) for x in t], "d": 1}, S, "wound-screw"))
+    for f, S, kind in far:
+        qn = sum(x * x for x in f["q"])
+        for a in pts[6:9] + basis[::2]:
+            A = np.array(a, dtype=float)
+            for name in M6:
+                yield "se3_motion", dict(f, a=a), qn * f["d"], (lambda S=S, A=A, name=name: (Twist3(S) * C[name](A)).A), "Twist3(%s)*%s" % (kind, name)
+                yield "se3_motion", dict(f, a=a), qn * f["d"], (lambda S=S, A=A, name=name: (Twist3(S).SE3() * C[name](A)).A), "Twist3(%s).SE3()*%s" % (kind, name)
+
 
 def typed(j):
     """same class in, same class out; mixed classes or unequal lengths rejected; documented result classes"""
@@ -163,7 +188,8 @@ def typed(j):
     def mk(name, n):
         return C[name]([v * (k + 1) for k in range(n)]) if n > 1 else C[name](v)
     for (ln, rn) in itertools.product(C, C):
-        for (m, n) in itertools.product((1, 2, 3), (1, 2, 3)):
+        # lengths include 6 and 7: a single value has six elements, so N = 6 is where a length test can go wrong
+        for (m, n) in itertools.product((1, 2, 3, 6, 7), (1, 2, 3, 6, 7)):
             for opn, op in (("+", lambda a, b: a + b), ("-", lambda a, b: a - b)):
                 cid = ("typed", ln, opn, rn, m, n)
                 site = "%s%s" % (ln, opn)
